@@ -78,15 +78,17 @@ type closureInfo struct {
 
 // Exec symbolically executes one function (and inlined callees) into a Script.
 type Exec struct {
-	V        *Verifier
-	sc       *Script
-	root     *ssa.Function
-	obls     []*Obligation
-	notes    map[string]bool // assumptions / unsupported features encountered
-	counts   map[string]int  // for obligation naming
-	depth    int
-	ifaces   map[string]*types.Interface // interfaces asserted against
-	lockMode bool
+	V         *Verifier
+	sc        *Script
+	root      *ssa.Function
+	obls      []*Obligation
+	notes     map[string]bool // assumptions / unsupported features encountered
+	counts    map[string]int  // for obligation naming
+	depth     int
+	ifaces    map[string]*types.Interface // interfaces asserted against
+	lockMode  bool
+	private   []Term // refs of non-escaping local cells (all frames)
+	noRestore map[string]bool
 }
 
 type frame struct {
@@ -160,7 +162,30 @@ func (ex *Exec) havoc(st *State, comp string) {
 	if !ok {
 		return // never used: nothing to forget
 	}
-	st.heap[comp] = ex.sc.freshConst("hv:"+comp, sort)
+	old := ex.get(st, comp, sort)
+	nw := ex.sc.freshConst("hv:"+comp, sort)
+	// cells of this activation whose address never escapes cannot be written by a callee
+	if len(ex.private) > 0 && strings.HasPrefix(sort, "(Array Int ") && (strings.HasPrefix(comp, "C:") || strings.HasPrefix(comp, "F:")) {
+		cur := nw
+		for _, r := range ex.private {
+			if ex.noRestore[r.S] {
+				continue
+			}
+			cur = store(cur, r, sel(old, r))
+		}
+		st.heap[comp] = ex.sc.define(ex.sc.freshName("hp:"+comp), cur)
+		return
+	}
+	st.heap[comp] = nw
+}
+
+// loopHavoc forgets a component at a loop header (the loop body itself may write private cells).
+func (ex *Exec) loopHavoc(st *State, comp string) {
+	sort, ok := ex.compSort(comp)
+	if !ok {
+		return
+	}
+	st.heap[comp] = ex.sc.freshConst("lhv:"+comp, sort)
 }
 
 // assume adds a fact guarded by the state's reachability.
@@ -678,6 +703,9 @@ func (ex *Exec) runBody(f *frame, entry *State, params []Term) {
 				terminated = true
 			case *ssa.If, *ssa.Jump:
 			default:
+				if f.contract != nil && !f.inline && len(f.contract.Sites) > 0 {
+					ex.siteAsserts(f, st, b, ins)
+				}
 				ex.step(f, st, ins)
 			}
 		}
@@ -759,6 +787,33 @@ func (ex *Exec) runBody(f *frame, entry *State, params []Term) {
 	f.exit = exit
 }
 
+// siteAsserts: obligations attached (by source text) before an instruction.
+func (ex *Exec) siteAsserts(f *frame, st *State, b *ssa.BasicBlock, ins ssa.Instruction) {
+	switch ins.(type) {
+	case *ssa.Call, *ssa.MapUpdate, *ssa.Go, *ssa.Defer:
+	default:
+		return
+	}
+	if !ins.Pos().IsValid() {
+		return
+	}
+	text := ex.V.srcText(ins, ins.Pos())
+	for _, sa := range f.contract.Sites {
+		if !strings.HasPrefix(text, sa.Site) {
+			continue
+		}
+		sa.Hits++
+		env := ex.frameEnv(f, st, f.entry)
+		env.siteBlock = b
+		env.siteInstr = ins
+		v, err := env.trans(sa.Expr)
+		if err != nil {
+			ex.V.fatal("%s assert at %q: %v", funcName(f.fn), sa.Site, err)
+		}
+		ex.oblige(f, st, "assert", sa.Label, sa.Label, ins.Pos(), v.t, "assertion before "+sa.Site+": "+sa.Text)
+	}
+}
+
 func (f *frame) phiLocs(phi *ssa.Phi) {
 	// propagate a location/closure descriptor if all edges agree (common for pointer phis)
 	if _, ok := phi.Type().Underlying().(*types.Pointer); !ok {
@@ -830,7 +885,7 @@ func (ex *Exec) enterLoop(f *frame, st *State, h *ssa.BasicBlock, li *loopInfo, 
 		if c == "*" {
 			for _, k := range sortedKeys(ex.V.compSorts) {
 				if k != compAlloc {
-					ex.havoc(st, k)
+					ex.loopHavoc(st, k)
 				}
 			}
 			ex.havocAlloc(st)
@@ -840,7 +895,7 @@ func (ex *Exec) enterLoop(f *frame, st *State, h *ssa.BasicBlock, li *loopInfo, 
 			ex.havocAlloc(st)
 			continue
 		}
-		ex.havoc(st, c)
+		ex.loopHavoc(st, c)
 	}
 	ex.assumeInvariants(f, st, li)
 }
